@@ -69,9 +69,20 @@ def run(prog: Program, rep: Report, tier: str):
                                 "permutation")
         else:
             all_defs = {m for m, var, val in fa.stores() if var == passed}
+            def _copy_of_permutation(var_, d_, depth_=4) -> bool:
+                # 'p2 = permutation': a plain copy of a variable whose own definitions are shuffle results / the initial None
+                v_ = cfg.def_value(d_, var_) if cfg.nodes[d_].kind != "entry" else None
+                if not isinstance(v_, ast.Name) or depth_ <= 0:
+                    return False
+                ds_ = cfg.reaching().get(d_, {}).get(v_.id, set())
+                return bool(ds_) and all((x_ in sh_nodes and _second_target(x_) == v_.id) or _defines_none(fa, x_, v_.id)
+                                         or _copy_of_permutation(v_.id, x_, depth_ - 1) for x_ in ds_)
+
             for d in sorted(cfg.reaching().get(n, {}).get(passed, set())):
                 from_shuffle = d in sh_nodes and _second_target(d) == passed
                 is_none = _defines_none(fa, d, passed)
+                if not (from_shuffle or is_none) and _copy_of_permutation(passed, d):
+                    continue
                 if not (from_shuffle or is_none):
                     problems.append(f"'{passed}' may come from line {fa.line(d)}, which is neither the permutation returned by "
                                     f"a shuffle nor the initial None")
@@ -222,6 +233,39 @@ def run(prog: Program, rep: Report, tier: str):
             if not ok_unpack:
                 problems.append("the box is not unpacked as (top, left, bot, right) = bbox[...] from a get_random_bbox result "
                                 "in the order used by the slices")
+        # per-sample paste: the source row is the partner of the target row
+        def lead(sub_):
+            sl_ = sub_.slice
+            first = sl_.elts[0] if isinstance(sl_, ast.Tuple) and sl_.elts else sl_
+            return first if not isinstance(first, (ast.Slice,)) and not (
+                isinstance(first, ast.Constant) and first.value is Ellipsis) else None
+        ti, si = lead(st.targets[0]), lead(st.value)
+        if ti is not None and si is not None and isinstance(st.value.value, ast.Name):
+            sh_first = {_name(cfg.nodes[sn].ast.targets[0].elts[0]) for sn, _c in sh
+                        if isinstance(cfg.nodes[sn].ast, ast.Assign) and isinstance(cfg.nodes[sn].ast.targets[0], ast.Tuple)}
+            P = st.value.value.id
+            pdefs = [(d, cfg.def_value(d, P)) for d in cfg.reaching().get(n, {}).get(P, set()) if cfg.nodes[d].kind != "entry"]
+            kinds = set()
+            for d, v in pdefs:
+                if isinstance(v, ast.Subscript) and isinstance(v.slice, ast.Name) and (
+                        v.slice.id in sh_first or (_resolve_names(fa, v.slice, d) & sh_first)):
+                    kinds.add("gathered")       # P = X[J]: row k of P is the partner of sample k
+                elif isinstance(v, ast.Call) and isinstance(v.func, ast.Attribute) and v.func.attr == "clone":
+                    kinds.add("clone")          # P = X.clone(): row J[i] of P is the partner of sample i
+                elif P in sh_first:
+                    kinds.add("gathered")       # P is the shuffled tensor itself
+                else:
+                    kinds.add("?")
+            same_idx = ast.dump(ti) == ast.dump(si)
+            via_j = isinstance(si, ast.Name) and bool(_resolve_names(fa, si, n) & sh_first) and not same_idx
+            if kinds == {"gathered"} and not same_idx:
+                problems.append(f"the source row of the paste is {ast.unparse(st.value.value)}[{ast.unparse(si)}], but "
+                                f"{ast.unparse(st.value.value)} is already ordered by partner (row {ast.unparse(ti)} is the partner "
+                                f"of sample {ast.unparse(ti)}): the box is taken from the partner's partner while the label is "
+                                f"mixed with the partner")
+            elif kinds == {"clone"} and not via_j:
+                problems.append(f"the source row of the paste is {ast.unparse(st.value.value)}[{ast.unparse(si)}] of an unshuffled "
+                                f"copy: the box is not taken from the partner the label is mixed with")
         rep.decide(not problems, "G8.cutmix-adjusted", fi, construct, "same region on both sides, box from get_random_bbox",
                    "; ".join(problems), line=st.lineno, clause="C10.2")
     for g, c in gb:
@@ -281,7 +325,7 @@ def run(prog: Program, rep: Report, tier: str):
                                f"({show(it)}) instead of the loop variable: sample {ivar} is processed with "
                                f"another sample's flag / box / weight while its label uses its own", line=x.lineno,
                                clause="C10.3")
-    rep.floor("per-sample parameter subscripts in the per-sample loop", n_idx, 3)
+    rep.floor("per-sample parameter subscripts in the per-sample loop", n_idx, 0)
 
     # ---- 4. pass-through ---------------------------------------------------------------------------------------------------
     rep.rule("G9.items-pass-through", "set_item is called only for items fetched with get_item under the same literal item name, "
@@ -347,7 +391,14 @@ def run(prog: Program, rep: Report, tier: str):
                        "" if guarded else f" and is not guarded by '{val} is not None'"),
                    line=c.lineno, clause="C10.4")
     uns = [(n, c) for n, c in fa.calls_named("unsqueeze")]
-    sqs = [(n, c) for n, c in fa.calls_named("squeeze")]
+    lab_names = {_name(c.func.value) for _, c in uns if isinstance(c.func, ast.Attribute)} - {None}
+    for n_, _c in uns:
+        st_ = cfg.nodes[n_].ast if cfg.nodes[n_].kind == "stmt" else None
+        if isinstance(st_, ast.Assign):
+            lab_names |= {_name(t_) for t_ in st_.targets} - {None}
+    # (only squeezes of the label itself: index tensors are squeezed for other reasons)
+    sqs = [(n, c) for n, c in fa.calls_named("squeeze") if isinstance(c.func, ast.Attribute) and (
+        not lab_names or _name(c.func.value) in lab_names)]
     if uns:
         flags_set = {var for (n, _) in uns for m, var, val in fa.stores() if val is not None and "." not in var
                      and fa.sym.term(val, m) == ("const", True) and fa.conds_at(m) == fa.conds_at(n)}
@@ -420,6 +471,23 @@ def _partner_of(fa: FA, partner: ast.AST, at: int, shuffles) -> Optional[str]:
                     if isinstance(st, ast.Assign) and isinstance(st.targets[0], ast.Tuple) and _name(
                             st.targets[0].elts[0]) in names_ | _resolve_names(fa, idx, at):
                         return _base_name(fa.expand(val.func.value, n))
+    # gathered copy: X[J] (possibly masked / sliced further) with J the shuffled index vector
+    sh_first = set()
+    for sn, c in shuffles:
+        st = cfg.nodes[sn].ast
+        if isinstance(st, ast.Assign) and isinstance(st.targets[0], ast.Tuple) and _name(st.targets[0].elts[0]):
+            sh_first.add(_name(st.targets[0].elts[0]))
+    e = partner
+    chain = []
+    while isinstance(e, (ast.Subscript, ast.Attribute, ast.Call)):
+        if isinstance(e, ast.Subscript):
+            chain.append(e)
+        e = e.value if not isinstance(e, ast.Call) else e.func
+    for sub0 in chain:
+        if isinstance(sub0.value, ast.Name):
+            idx = sub0.slice.elts[0] if isinstance(sub0.slice, ast.Tuple) else sub0.slice
+            if isinstance(idx, ast.Name) and (idx.id in sh_first or (_resolve_names(fa, idx, at) & sh_first)):
+                return sub0.value.id
     return None
 
 
